@@ -117,8 +117,9 @@ class WatermarkPoolSink(PoolSink):
       sink = self._sink_provider.CreateSink(self._properties)
       # TODO: we could get a better failure case here by detecting that Open()
       # failed and retrying, however for now the simplest option is to just fail.
-      sink.Open().wait()
+      # Subscribe first, a failed Open() raises the fault signal as well.
       sink.on_faulted.Subscribe(self.__PropagateShutdown)
+      sink.Open().wait()
       return sink
     else:
       if len(self._waiters) + 1 > self._max_queue_size:
@@ -188,7 +189,11 @@ class WatermarkPoolSink(PoolSink):
 
   def _OpenImpl(self):
     sink = self._Get()
+    open_failed = sink.is_closed
     self._Release(sink)
+    if open_failed:
+      # _Release has closed the pool, report the failure to the caller too.
+      raise Exception('Unable to open a sink to %s' % self.endpoint)
     self._state = ChannelState.Open
 
   def _FlushCache(self):
